@@ -604,7 +604,12 @@ func c12r4(p *Prog, r *Reporter) {
 		}
 		name := n
 		var evOK, nilOK, orOK bool
-		for _, b := range fn.Blocks {
+		// the aggregation may live in the function or in a helper it calls (same package, two levels)
+		var blocks []*ssa.BasicBlock
+		for _, g := range withHelpers(p, fn, 2) {
+			blocks = append(blocks, g.Blocks...)
+		}
+		for _, b := range blocks {
 			for _, ins := range b.Instrs {
 				if bo, ok := ins.(*ssa.BinOp); ok && bo.Op == token.OR {
 					for _, op := range []ssa.Value{bo.X, bo.Y} {
@@ -650,10 +655,10 @@ func c12r4(p *Prog, r *Reporter) {
 					}
 				}
 			}
-			for _, bb := range fn.Blocks {
+			for _, bb := range b.Parent().Blocks {
 				for _, i2 := range bb.Instrs {
 					ph, ok := i2.(*ssa.Phi)
-					if !ok || ph.Comment != "hasComponents" {
+					if !ok || !flowsToField(ph, "hasComponents", map[ssa.Value]bool{}) {
 						continue
 					}
 					for ei, e := range ph.Edges {
@@ -991,4 +996,27 @@ func lenAndConst(bo *ssa.BinOp, param string) (lenLeft bool, c int64, ok bool) {
 		}
 	}
 	return false, 0, false
+}
+
+// flowsToField: the value (through phis) is stored into a field of the given name.
+func flowsToField(v ssa.Value, field string, seen map[ssa.Value]bool) bool {
+	if seen[v] || v.Referrers() == nil {
+		return false
+	}
+	seen[v] = true
+	for _, ref := range *v.Referrers() {
+		switch x := ref.(type) {
+		case *ssa.Store:
+			if x.Val == v {
+				if _, f, _, ok := loadedField(x.Addr); ok && f == field {
+					return true
+				}
+			}
+		case *ssa.Phi:
+			if flowsToField(x, field, seen) {
+				return true
+			}
+		}
+	}
+	return false
 }
